@@ -158,6 +158,14 @@ def oracle(R, stats):
 
     for ci, (shape, kind) in enumerate(plan):
         x = gen_data(rng, shape, kind)
+        if len(shape) == 2:      # the same values in other memory layouts: Fortran order, a transposed view, a read-only array
+            lay = ci % 4
+            if lay == 1:
+                x = np.asfortranarray(x)
+            elif lay == 2:
+                x = np.ascontiguousarray(x.T).T
+            elif lay == 3:
+                x = x.copy(); x.setflags(write=False)
         a, b = new_map()
         y = a * x + b
         axes = [None, 0] if len(shape) == 1 else [ax for ax in (None, 0, 1) if ax is None or shape[ax] >= 8]
